@@ -78,6 +78,8 @@ def main():
         continue
       sh("git -C /repo worktree add --detach %s HEAD" % wt)
       r = {"head": sh("git -C /repo rev-parse --short HEAD")[1].strip()}
+      if results.get(key, {}).get("other_checks"):
+        r["other_checks"] = results[key]["other_checks"]
       try:
         if demo:
           rc, out = sh("/venv/bin/python %s" % demo, cwd=wt)
